@@ -149,7 +149,16 @@ def run(prog, rep, tier='quick'):
                     else:
                         rep.proved('convergence', f.qname, ctx, 'the while test compares two distinct buffers (%d differences examined, '
                                    'also on the state reached after one pass of the body)' % len(subs), where)
-                if okw:
+                cen = sorted(l for l in tw if isinstance(l, str) and l.startswith('CEN:')) if method == 'adapt' else []
+                if cen:
+                    cn, cq = itp.cen_nodes[cen[0]]
+                    okw = None
+                    rep.violation('weights', cq or f.qname, 'adapt noise floor: %s [%s]' % (normalise(cn)[:60], ctx), 'the adaptive weights are computed '
+                                  'from a moment about the mean of the data: Thomson\'s broadband term (1 - eigenvalue) * sigma^2 uses the mean '
+                                  'square of the data, the two differ by |mean|^2', loc((cq or f.qname).split('.')[0], cn))
+                if okw is None:
+                    pass
+                elif okw:
                     rep.proved('weights', f.qname, ctx, why, where)
                 else:
                     rep.violation('weights', f.qname, ctx, 'weights are not %s: shape %s, dtype complex=%s, depend on %s' % (
